@@ -69,9 +69,11 @@ def main(tier: str, seed: int, opts) -> int:
         abstract, nontrivial = set(), set()
         ls_kinds, sf_kinds = set(), set()
         digest = hashlib.sha256()
+        digest_n = hashlib.sha256()
         seen = set()
         for i, (job, r) in enumerate(zip(jobs, results)):
             digest.update(r["log_digest"].encode())
+            digest_n.update(r["log_digest_normalised"].encode())
             merge_counts(stats, r["stats"])
             ab = hashlib.sha256(repr(r["abstract"]).encode()).hexdigest()[:12] + r["file"]
             abstract.add(ab)
@@ -133,6 +135,7 @@ def main(tier: str, seed: int, opts) -> int:
         "real_subprocess_conversions_compared": sub_checked,
         "regression_replays_run": n_reg,
         "log_digest": digest.hexdigest(),
+        "log_digest_normalised": digest_n.hexdigest(),
         "components": {"real": ["decaylanguage.modeling (reader, both generators)", "decaylanguage.__main__ via plumbum in-process", "lark", "particle", "pandas"],
                        "simulated": ["wall clock of the converters", "stdout", "option files (in memory)", "goofit module (recording stand-in that executes the generated Python)"],
                        "reference": ["replicas of the same conversion", "record read from the executed Python vs record parsed from the C++ text"]},
